@@ -30,6 +30,7 @@ fn entry_points<'a>(
     attrs: &DifficultyAttributes,
     pattrs: &PerformanceAttributes,
     d: &rosu_pp::Difficulty,
+    sc: &ScoreSpec,
 ) -> Vec<(&'static str, Builder<'a>)> {
     let mut v: Vec<(&'static str, Builder<'a>)> = Vec::new();
     // from the map (the map of the calculation mode: converted explicitly where needed)
@@ -69,6 +70,17 @@ fn entry_points<'a>(
     v.push((
         "Performance::new(map.clone()).difficulty(d).mode_or_ignore(mode)",
         Box::new(move || Some(Performance::new(map.clone()).difficulty(dd).mode_or_ignore(mode))),
+    ));
+    // ... and with the score specification given while the builder still is the osu! one: it has to survive the switch
+    let (dd, s2) = (d.clone(), sc.clone());
+    v.push((
+        "Performance::new(&map).difficulty(d).<score>.try_mode(mode)",
+        Box::new(move || s2.apply(Performance::new(map).difficulty(dd)).try_mode(mode).ok()),
+    ));
+    let (dd, s2) = (d.clone(), sc.clone());
+    v.push((
+        "Performance::new(&map).difficulty(d).<score>.mode_or_ignore(mode)",
+        Box::new(move || Some(s2.apply(Performance::new(map).difficulty(dd)).mode_or_ignore(mode))),
     ));
     // from attributes
     let a = attrs.clone();
@@ -289,7 +301,7 @@ pub fn case(ctx: &mut Ctx, idx: u64) {
         );
     }
 
-    for (name, build) in entry_points(&map, &conv, mode, &a, &reference, &d) {
+    for (name, build) in entry_points(&map, &conv, mode, &a, &reference, &d, &sc) {
         let dd = d.clone();
         let scc = sc.clone();
         let r = guard(move || build().map(|p| api::perf_calc(scc.apply(p.difficulty(dd)))));
